@@ -75,3 +75,56 @@ def result(inst, ch, extra=None):
     if extra:
         r.update(extra)
     return r
+
+
+# ---------------------------------------------------------------------------------------------
+# relational comparison of two real transcriptions over one variable set
+# ---------------------------------------------------------------------------------------------
+def _nonconst(inst, atoms_by_dom):
+    """drop variable-free atoms that are true (rockit drops constant-true rows)"""
+    z3 = inst.z3
+    keep = []
+    for j, (kind, term, row) in enumerate(atoms_by_dom['z']):
+        st = z3.simplify(term) if not isinstance(term, (int, float)) else term
+        if z3.is_rational_value(st):
+            v = st.numerator_as_long() / st.denominator_as_long()
+            if (kind == 'eq' and v == 0) or (kind == 'le' and v <= 0):
+                continue
+        keep.append(j)
+    return {d: [atoms_by_dom[d][j] for j in keep] for d in atoms_by_dom}
+
+
+def compare_nlps(ch, A, B, tagA='A', tagB='B'):
+    """A, B: Inst over the same variables/points.  returns list of (key, label, detail)"""
+    out = []
+    a = _nonconst(A, {d: [(k, t, '%s.row%d' % (tagA, r)) for k, t, r in A.atoms(d)] for d in A.domains()})
+    b = _nonconst(B, {d: [(k, t, '%s.row%d' % (tagB, r)) for k, t, r in B.atoms(d)] for d in B.domains()})
+    pairs, un_a, un_b = ch.match(a, b)
+    for j in un_a:
+        out.append(('row-only-in-%s' % tagA, a['z'][j][2], 'row of %s has no equal row in %s' % (tagA, tagB)))
+    for i in un_b:
+        out.append(('row-only-in-%s' % tagB, b['z'][i][2], 'row of %s has no equal row in %s' % (tagB, tagA)))
+    fa = {d: A.view(d)[0] for d in A.domains()}
+    fb = {d: B.view(d)[0] for d in B.domains()}
+    if not ch.prove('objective %s==%s' % (tagA, tagB), fa, fb) and ch.violations:
+        v = ch.violations.pop()
+        out.append(('objective-differs', 'f', 'objectives differ: %s' % {k: v.get(k) for k in ('how', 'impl', 'ref')}))
+    return out, len(pairs)
+
+
+def bind_positional(skip=(), consts=None, pconsts=None):
+    """bind B's variables to `like`'s by position, skipping like-variables with index in `skip`"""
+    def bind(nlp, like):
+        z3 = like.z3
+        keep = [i for i in range(len(like.xv)) if i not in skip]
+        out = {}
+        for d in like.domains():
+            if d == 'z':
+                xs = [like.xv[i] for i in keep]
+                ps = list(like.pv)
+            else:
+                xs = [like.pts[d][0][i] for i in keep]
+                ps = list(like.pts[d][1])
+            out[d] = (xs, ps)
+        return out
+    return bind
